@@ -193,6 +193,14 @@ def run_check(prop: str, run_rules, *, tier='quick', replay=None, thorough_extra
         ck = Checker(prop, repo, tier)
         extra = {}
         counts = {}
+        for new_a, old_a in sorted(getattr(repo, 'classes_restored', {}).items()):
+            msg = f'class `{old_a}` is not defined; `{new_a}` (same module, bases and members) is read as the renamed `{old_a}`'
+            ck.notes.append(msg)
+            print(f'  note: {msg}')
+        for new_a, old_a in sorted(getattr(repo, 'attrs_restored', {}).items()):
+            msg = f'attribute `{old_a}` occurs nowhere in the package; `{new_a}` (same stores, reads and functions in every module) is read as the renamed `{old_a}`'
+            ck.notes.append(msg)
+            print(f'  note: {msg}')
         for m in repo.modules.values():
             for new_q, old_q, sim in getattr(m, 'renamed', []):
                 msg = f'{m.rel}: `{old_q}` is not defined; `{new_q}` (body similarity {sim}) is read as the renamed `{old_q}`'
@@ -204,6 +212,10 @@ def run_check(prop: str, run_rules, *, tier='quick', replay=None, thorough_extra
                 print(f'  note: {msg}')
             for caller, helper, line in getattr(m, 'inlined', []):
                 msg = f'{m.rel}: `{helper}` is not a function of the confirmed tree; its call at L{line} of `{caller}` is read in place (extracted helper)'
+                ck.notes.append(msg)
+                print(f'  note: {msg}')
+            for q_, pairs_ in getattr(m, 'locals_restored', []):
+                msg = f'{m.rel}: `{q_}`: renamed local(s) read under their recorded names: ' + ', '.join(f'{c}→{r}' for c, r in pairs_[:8]) + (' …' if len(pairs_) > 8 else '')
                 ck.notes.append(msg)
                 print(f'  note: {msg}')
             if getattr(m, 'constants_read', 0):
